@@ -29,12 +29,17 @@
      therefore reaches the disk only with the backend whose `remove` writes through (DbmDB:
      `del self._dbm[task_id]`, dependency.py 226-233); JsonDB keeps it in memory and SqliteDB in a
      transaction that is never committed: [persisted].
-   help, dumpdb, tabcompletion, clean --dry-run: no transition of (file system, DB) -- tied by the
-   correspondence check only ([noop_cmd]); Model/Clean.v has the model of clean.
+   help, dumpdb, tabcompletion: no transition of (file system, DB) -- tied by the correspondence
+   check only ([noop_cmd]).
+   * clean [--dry-run] (last part of this file): Task.clean (task.py 513-541) over clean LISTS mixing
+     every kind of clean action (clean_targets, python callables with / without a `dryrun` parameter,
+     shell commands), with what the actions do to files, the dependency DB (--forget) and the record of
+     which action is invoked with which flag: [cclean_cmd].  The order in which the command hands the
+     tasks to Task.clean is Model/Clean.v's [clean_order] (C14), reused unchanged.
 
    Line numbers: doit/cmd_list.py, doit/cmd_info.py, doit/runner.py at HEAD. *)
 From DoitV Require Export Base Status History.
-From DoitV Require Runner.
+From DoitV Require Runner Clean.
 Open Scope Z_scope.
 
 (* ------------------------------------------------------------------ tasks as the loader leaves them *)
@@ -97,7 +102,7 @@ Definition ilegacy : iver := {| fixCalc := false; fixIgn := false |}.
 Definition saved_fd (cf : name -> list file) (d : db) (c : name) : list file :=
   match d c with Some _ => cf c | None => [] end.
 
-(* help / dumpdb / tabcompletion / clean --dry-run *)
+(* help / dumpdb / tabcompletion *)
 Definition noop_cmd (d : db) : db := d.
 
 Section Introspect.
@@ -378,4 +383,181 @@ Definition enc_ires (b : backend) (tasks : list name) (files : list file) (d0 : 
   | IInvalidCmd => [1]
   | IKeyErr n => [2; zN n]
   | ICrash d => [98; -7] ++ db_z tasks files (persisted b d0 d)
+  end.
+
+(* ================================================================== clean [--dry-run] over clean lists
+   doit/task.py at HEAD:
+     513  def clean(self, outstream, dryrun):
+     519      self.init_options()
+     521      if self._remove_targets is True:              # `clean: True`
+     522          clean_targets(self, dryrun)
+     523      else:
+     525          for action in self.clean_actions:         # `clean: [a0, a1, ...]`
+     526              msg = "%s - executing '%s'\n"
+     527              outstream.write(msg % (self.name, action))
+     530              execute_on_dryrun = False             # afresh for EVERY action
+     531              if isinstance(action, PythonAction):
+     532                  action_sig = inspect.signature(action.py_callable)
+     533                  if 'dryrun' in action_sig.parameters:
+     534                      execute_on_dryrun = True
+     535                      action.kwargs['dryrun'] = dryrun
+     537              if (not dryrun) or execute_on_dryrun:
+     538                  result = action.execute(out=outstream)
+     539                  if isinstance(result, BaseFail): sys.stderr.write(str(result))   # the loop goes on
+     621-638  clean_targets(task, dryrun): for target in sorted(task.targets, reverse=True): a regular
+              file is announced ("<task> - removing file '<target>'") and, unless dryrun, removed.
+   doit/cmd_clean.py 55-65 Clean.clean_tasks (each task once; --forget only when not --dry-run;
+   dep_manager.close()), 77-123 Clean._execute (which tasks, in which order: Model/Clean.v).
+
+   Files here are regular files or absent (directories as targets: Model/Clean.v, C14); a file system
+   is the list of the files that exist.  What an action written by the user does to files when it is
+   really executed is an oracle carried by the action ([fop] lists); a python callable that has a
+   `dryrun` parameter is user code too: its effect is a function of the flag it receives, and whether
+   it honours the flag ([honours]) is a hypothesis of the frame theorem, not something doit ensures. *)
+Inductive fop := FRemove (f : file) | FCreate (f : file).
+
+Inductive cact :=
+| CTargets                          (* doit.task.clean_targets as a clean action: python-action, parameters (task, dryrun) *)
+| CPyDry (ops : bool -> list fop)   (* python-action whose callable has a parameter named `dryrun`; ops = what it does, given the flag *)
+| CPyPlain (ops : list fop)         (* python-action whose callable has no such parameter *)
+| CCmd (ops : list fop).            (* cmd-action (shell command / argument list) *)
+
+(* 531-534: isinstance(action, PythonAction) and 'dryrun' in inspect.signature(py_callable).parameters *)
+Definition takes_dryrun (a : cact) : bool :=
+  match a with CTargets | CPyDry _ => true | CPyPlain _ | CCmd _ => false end.
+Definition honours (a : cact) : Prop := match a with CPyDry ops => ops true = [] | _ => True end.
+
+Definition cfs := list file.
+Definition apply_op (fs : cfs) (o : fop) : cfs :=
+  match o with FRemove f => rem f fs | FCreate f => addset f fs end.
+Definition apply_ops (fs : cfs) (ops : list fop) : cfs := fold_left apply_op ops fs.
+
+Inductive cevent :=
+| VClean (t : name) (dry : bool)                      (* Task.clean(outstream, dryrun) of task t entered *)
+| VAnnounce (t : name) (i : nat)                      (* outstream: "<t> - executing '<action i>'" *)
+| VExec (t : name) (i : nat) (flag : option bool)     (* action i .execute() called; Some d: the callable received dryrun=d *)
+| VMsg (t : name) (f : file).                         (* clean_targets printed "<t> - removing file '<f>'" *)
+
+Record cworld := { c_fs : cfs; c_db : db; c_ev : list cevent }.
+Definition cemit (w : cworld) (e : cevent) : cworld := {| c_fs := c_fs w; c_db := c_db w; c_ev := c_ev w ++ [e] |}.
+Definition cset_fs (w : cworld) (fs : cfs) : cworld := {| c_fs := fs; c_db := c_db w; c_ev := c_ev w |}.
+Definition cset_db (w : cworld) (d : db) : cworld := {| c_fs := c_fs w; c_db := d; c_ev := c_ev w |}.
+
+(* task.py 621-638, regular files only *)
+Definition ctarget (t : name) (dry : bool) (w : cworld) (f : file) : cworld :=
+  if mem f (c_fs w) then                                   (* os.path.isfile *)
+    let w1 := cemit w (VMsg t f) in
+    if dry then w1 else cset_fs w1 (rem f (c_fs w1))       (* os.remove *)
+  else w.
+Definition ctargets (t : name) (targets : list file) (dry : bool) (w : cworld) : cworld :=
+  fold_left (ctarget t dry) (rev (sort_files targets)) w.
+
+(* 538: action.execute().  A callable receives `dryrun` iff it has the parameter (535) *)
+Definition exec_act (t : name) (targets : list file) (i : nat) (dry : bool) (a : cact) (w : cworld) : cworld :=
+  match a with
+  | CTargets => ctargets t targets dry (cemit w (VExec t i (Some dry)))
+  | CPyDry ops => let w1 := cemit w (VExec t i (Some dry)) in cset_fs w1 (apply_ops (c_fs w1) (ops dry))
+  | CPyPlain ops => let w1 := cemit w (VExec t i None) in cset_fs w1 (apply_ops (c_fs w1) ops)
+  | CCmd ops => let w1 := cemit w (VExec t i None) in cset_fs w1 (apply_ops (c_fs w1) ops)
+  end.
+
+(* 525-539 *)
+Fixpoint cclean_actions (t : name) (targets : list file) (dry : bool) (i : nat) (acts : list cact) (w : cworld) : cworld :=
+  match acts with
+  | [] => w
+  | a :: r =>
+      let w1 := cemit w (VAnnounce t i) in
+      let execute_on_dryrun := takes_dryrun a in            (* 530-535: decided for this action alone *)
+      let w2 := if negb dry || execute_on_dryrun then exec_act t targets i dry a w1 else w1 in
+      cclean_actions t targets dry (S i) r w2
+  end.
+
+(* ct_clean: None = `clean: True`; Some acts = the list of clean actions ([] when the task has no `clean`) *)
+Record ctask := {
+  ct_name : name; ct_task_dep : list name; ct_setup : list name; ct_subtask_of : option name;
+  ct_clean : option (list cact); ct_targets : list file
+}.
+Definition ctable := list ctask.     (* self.task_list after TaskControl, as in Model/Clean.v *)
+
+(* 513-539 *)
+Definition ctask_clean (t : ctask) (dry : bool) (w : cworld) : cworld :=
+  let w0 := cemit w (VClean (ct_name t) dry) in
+  match ct_clean t with
+  | None => ctargets (ct_name t) (ct_targets t) dry w0
+  | Some acts => cclean_actions (ct_name t) (ct_targets t) dry 0 acts w0
+  end.
+
+(* Clean.clean_tasks, cmd_clean.py 55-65 *)
+Fixpoint cclean_tasks (dry forget : bool) (ts : list ctask) (cleaned : list name) (w : cworld) : list name * cworld :=
+  match ts with
+  | [] => ([], w)
+  | t :: r =>
+      if mem (ct_name t) cleaned then cclean_tasks dry forget r cleaned w
+      else
+        let w1 := ctask_clean t dry w in
+        let w2 := if forget && negb dry then cset_db w1 (remove (c_db w1) (ct_name t)) else w1 in   (* dep_manager.remove *)
+        let '(l, w3) := cclean_tasks dry forget r (ct_name t :: cleaned) w2 in
+        (ct_name t :: l, w3)
+  end.
+
+(* what Model/Clean.v looks at: names, dependencies, sub-task relation *)
+Definition to_clean_task (t : ctask) : Clean.task :=
+  {| Clean.t_name := ct_name t; Clean.t_task_dep := ct_task_dep t; Clean.t_setup := ct_setup t;
+     Clean.t_subtask_of := ct_subtask_of t; Clean.t_clean := option_map (map takes_dryrun) (ct_clean t);
+     Clean.t_targets := map (fun f => [f]) (ct_targets t) |}.
+
+Fixpoint clookup (tb : ctable) (n : name) : option ctask :=
+  match tb with
+  | [] => None
+  | t :: r => if N.eqb (ct_name t) n then Some t else clookup r n
+  end.
+Fixpoint clookup_all (tb : ctable) (l : list name) : option (list ctask) :=
+  match l with
+  | [] => Some []
+  | n :: r => match clookup tb n, clookup_all tb r with
+              | Some t, Some ts => Some (t :: ts)
+              | _, _ => None
+              end
+  end.
+
+(* Clean._execute, cmd_clean.py 77-123 *)
+Definition cclean_cmd (pat : Type) (fnmatch : name -> pat -> bool) (tb : ctable) (o : Clean.opts pat) (w : cworld)
+  : Clean.res (list name * cworld) :=
+  match Clean.clean_order pat fnmatch (map to_clean_task tb) o with
+  | Clean.Ok order =>
+      match clookup_all tb order with
+      | Some ts => Clean.Ok (cclean_tasks (Clean.o_dryrun o) (Clean.o_forget o) ts [] w)
+      | None => Clean.KeyErr
+      end
+  | Clean.KeyErr => Clean.KeyErr | Clean.InvalidCmd => Clean.InvalidCmd | Clean.OutOfFuel => Clean.OutOfFuel
+  end.
+
+(* ---- vocabulary of the frame theorem (Properties/C20.v) ---- *)
+(* the events a dry-run may add: announcements, messages, Task.clean entered with dryrun=True, and the
+   invocation, with dryrun=True, of an action of the task's own clean list that takes `dryrun` *)
+Definition dry_ok (tb : list ctask) (e : cevent) : Prop :=
+  match e with
+  | VExec n i fl => fl = Some true /\
+                    exists t acts a, In t tb /\ ct_name t = n /\ ct_clean t = Some acts /\
+                                     nth_error acts i = Some a /\ takes_dryrun a = true
+  | VClean _ d => d = true
+  | _ => True
+  end.
+Definition honest (t : ctask) : Prop := forall acts a, ct_clean t = Some acts -> In a acts -> honours a.
+
+(* encoding: [0] cleaned -1 events -1 one 0/1 per file of [cfiles] -7 DB | [96] InvalidCommand | [97] KeyError | [95] *)
+Definition enc_cevent (e : cevent) : list Z :=
+  match e with
+  | VClean t d => [1; zN t; zb d]
+  | VAnnounce t i => [2; zN t; znat i]
+  | VExec t i fl => [3; zN t; znat i; match fl with None => 2 | Some b => zb b end]
+  | VMsg t f => [4; zN t; zN f]
+  end.
+Definition enc_cres (tasks : list name) (dfiles cfiles : list file) (r : Clean.res (list name * cworld)) : list Z :=
+  match r with
+  | Clean.Ok (l, w) => 0 :: map zN l ++ [-1] ++ flat_map enc_cevent (c_ev w) ++ [-1]
+                       ++ map (fun f => zb (mem f (c_fs w))) cfiles ++ [-7] ++ db_z tasks dfiles (c_db w)
+  | Clean.KeyErr => [97]
+  | Clean.InvalidCmd => [96]
+  | Clean.OutOfFuel => [95]
   end.
